@@ -281,6 +281,14 @@ def rule_C03(env):
             res.add("R03.c", "emit_and_process/%s/memo-key-identity" % op,
                     "%s: %s - the simulation records the kind of a different memo entry than the one the bytes fetch" % (op, p), op_loc(env, "::emit_and_process"), sample(lf, [p]))
     res.floor("R03.a", 40, "guarded leaves of kind-constrained opcodes")
+    # the reference machine computes kinds from the BYTES: an emission that is not the one well-formed opcode the simulation
+    # assumes makes it execute something else from there on (O5, shared with C01/C17)
+    import rules_c04
+    tmp = Result("C03", "model_checking")
+    rules_c04.emission_findings(env, tmp, tr, "safe")
+    for f in tmp.findings:
+        res.add("O5", f.key.split("/", 2)[2], "the reference machine executes the emitted bytes, which are not the single well-formed opcode the "
+                "simulation assumes: " + f.msg, f.where, f.detail)
     # vacuity guard: the kind-constrained opcodes must all have been put through the transition analysis (an opcode whose
     # guard is unsatisfiable has no enabled leaf and is vacuously fine here - that is C12's business, not C03's)
     analysed = {op for op, lvs in tr.items() if not isinstance(lvs, Exception) and (spec.spec(op) or {}).get("kinds")}
